@@ -18,8 +18,15 @@ func dumpItem(v interface{}) string {
 	}
 	switch x := v.(type) {
 	case py.String:
+		// as python's ast.dump does, show the repr of the string
+		if repr, err := x.M__repr__(); err == nil {
+			return string(repr.(py.String))
+		}
 		return fmt.Sprintf("'%s'", string(x))
 	case py.Bytes:
+		if repr, err := x.M__repr__(); err == nil {
+			return string(repr.(py.String))
+		}
 		return fmt.Sprintf("b'%s'", string(x))
 	case Identifier:
 		if x == "" {
